@@ -3,6 +3,8 @@
 -/
 import BiscuitModel.Props.C04
 import BiscuitModel.Props.C05
+import BiscuitModel.Props.C07
+import BiscuitModel.Lemmas.Congr
 namespace Biscuit.C03
 open Biscuit Biscuit.C05
 
@@ -106,5 +108,363 @@ example :
   cases h with
   | base hb => simp [P] at hb
   | step _ hsr _ => simp [P] at hsr
+
+/-! ## end to end: the executable authorizer -/
+
+open Biscuit.C04
+
+/-- `F` and `F'` show the same facts to every trusted set that leaves out block `n` -/
+def VisSame (n : Nat) (F F' : List OFact) : Prop :=
+  ∀ T : List Nat, n ∉ T → SameFacts (visible T F) (visible T F')
+
+section VisLemmas
+variable {F F' : List OFact} {t : List Nat} (h : SameFacts (visible t F) (visible t F'))
+include h
+
+theorem NoErr_vis (syms : SymbolTable) (r : Rule) (hn : NoErr syms F t r) : NoErr syms F' t r :=
+  fun ob hob e => hn ob ((combine_same h _ _ ob).mpr hob) e
+
+theorem hits_vis (syms : SymbolTable) (blk : Nat) (r : Rule) :
+    (applyRule syms (visible t F) blk r).any isHit = (applyRule syms (visible t F') blk r).any isHit :=
+  any_congr_mem _ (applyRule_same h syms blk r)
+
+theorem forall_vis (syms : SymbolTable) (r : Rule) :
+    (let bs := combine (visible t F) r.body (MV.new (bodyVars r.body))
+     !bs.isEmpty && bs.all fun ob => evalExprs r.exprs ob.2 (TempSyms.new syms) == .ok true) =
+    (let bs := combine (visible t F') r.body (MV.new (bodyVars r.body))
+     !bs.isEmpty && bs.all fun ob => evalExprs r.exprs ob.2 (TempSyms.new syms) == .ok true) := by
+  have hc := combine_same h r.body (MV.new (bodyVars r.body))
+  simp only
+  rw [isEmpty_congr_mem hc, all_congr_mem _ hc]
+
+end VisLemmas
+
+theorem any_congr_on {α : Type} (l : List α) (p q : α → Bool) (h : ∀ a ∈ l, p a = q a) : l.any p = l.any q := by
+  induction l with
+  | nil => rfl
+  | cons x xs ih => simp only [List.any_cons, h x List.mem_cons_self, ih (fun a ha => h a (List.mem_cons_of_mem _ ha))]
+
+theorem all_congr_on {α : Type} (l : List α) (p q : α → Bool) (h : ∀ a ∈ l, p a = q a) : l.all p = l.all q := by
+  induction l with
+  | nil => rfl
+  | cons x xs ih => simp only [List.all_cons, h x List.mem_cons_self, ih (fun a ha => h a (List.mem_cons_of_mem _ ha))]
+
+/-- the trusted set of every alternative of the checks / policies evaluated for block `blk` with
+    default `dflt` leaves out `n` -/
+def ScopesAvoid (n : Nat) (km : KeyMap) (dflt : List Nat) (blk : Nat) (qs : List QRule) : Prop :=
+  ∀ q ∈ qs, n ∉ trustedFromScopes q.scopes dflt blk km
+
+theorem checkSpec_vis {n : Nat} {F F' : List OFact} (hv : VisSame n F F') (syms : SymbolTable) (km : KeyMap)
+    (dflt : List Nat) (blk : Nat) (c : Check) (ha : ScopesAvoid n km dflt blk c.queries) :
+    checkSpec syms F km dflt blk c = checkSpec syms F' km dflt blk c := by
+  unfold checkSpec
+  have hq : ∀ q ∈ c.queries, qMatches syms F km dflt blk q = qMatches syms F' km dflt blk q :=
+    fun q hq => hits_vis (hv _ (ha q hq)) syms blk q.rule
+  have hf : ∀ q ∈ c.queries, qHoldsForAll syms F km dflt blk q = qHoldsForAll syms F' km dflt blk q :=
+    fun q hq => forall_vis (hv _ (ha q hq)) syms q.rule
+  cases c.kind with
+  | one => simp only; exact any_congr_on _ _ _ hq
+  | all => simp only; exact any_congr_on _ _ _ hf
+  | reject => simp only; exact all_congr_on _ _ _ (fun q hq' => by rw [hq q hq'])
+
+theorem CheckNoErr_vis {n : Nat} {F F' : List OFact} (hv : VisSame n F F') (syms : SymbolTable) (km : KeyMap)
+    (dflt : List Nat) (blk : Nat) (qs : List QRule) (ha : ScopesAvoid n km dflt blk qs)
+    (hn : CheckNoErr syms F km dflt blk qs) : CheckNoErr syms F' km dflt blk qs :=
+  fun q hq => NoErr_vis (hv _ (ha q hq)) syms q.rule (hn q hq)
+
+theorem failedChecks_vis {n : Nat} {F F' : List OFact} (hv : VisSame n F F') (syms : SymbolTable) (km : KeyMap)
+    (dflt : List Nat) (blk : Nat) (mk : Nat → FailedCheck) (cs : List Check) (i : Nat)
+    (ha : ∀ c ∈ cs, ScopesAvoid n km dflt blk c.queries)
+    (hn : ∀ c ∈ cs, CheckNoErr syms F km dflt blk c.queries) :
+    failedChecks syms F km dflt blk mk i cs = failedChecks syms F' km dflt blk mk i cs := by
+  rw [failedChecks_spec syms F km dflt blk mk (checkSpec syms F km dflt blk) cs i
+        (fun c hc => evalCheck_spec syms F km dflt blk c (hn c hc)),
+      failedChecks_spec syms F' km dflt blk mk (checkSpec syms F km dflt blk) cs i
+        (fun c hc => by
+          rw [evalCheck_spec syms F' km dflt blk c (CheckNoErr_vis hv syms km dflt blk _ (ha c hc) (hn c hc)),
+            checkSpec_vis hv syms km dflt blk c (ha c hc)])]
+
+theorem firstPolicy_vis {n : Nat} {F F' : List OFact} (hv : VisSame n F F') (syms : SymbolTable) (km : KeyMap)
+    (dflt : List Nat) (ps : List Policy) (i : Nat)
+    (ha : ∀ p ∈ ps, ScopesAvoid n km dflt authorizerId p.queries)
+    (hn : ∀ p ∈ ps, CheckNoErr syms F km dflt authorizerId p.queries) :
+    firstPolicy syms F km dflt i ps = firstPolicy syms F' km dflt i ps := by
+  rw [firstPolicy_spec syms F km dflt (fun p => p.queries.any (qMatches syms F km dflt authorizerId)) ps i
+        (fun p hp => policyMatches_spec syms F km dflt p.queries (hn p hp)),
+      firstPolicy_spec syms F' km dflt (fun p => p.queries.any (qMatches syms F km dflt authorizerId)) ps i
+        (fun p hp => by
+          rw [policyMatches_spec syms F' km dflt p.queries (CheckNoErr_vis hv syms km dflt _ _ (ha p hp) (hn p hp))]
+          congr 1
+          exact any_congr_on _ _ _ (fun q hq => (hits_vis (hv _ (ha p hp q hq)) syms authorizerId q.rule).symm))]
+
+theorem blocksFailed_vis {n : Nat} {F F' : List OFact} (hv : VisSame n F F') (syms : SymbolTable) (km : KeyMap) :
+    ∀ (ibs : List (Nat × Block)),
+      (∀ ib ∈ ibs, ∀ c ∈ ib.2.checks,
+        ScopesAvoid n km (trustedFromScopes ib.2.scopes defaultTrusted ib.1 km) ib.1 c.queries) →
+      (∀ ib ∈ ibs, ∀ c ∈ ib.2.checks,
+        CheckNoErr syms F km (trustedFromScopes ib.2.scopes defaultTrusted ib.1 km) ib.1 c.queries) →
+      blocksFailed syms F km ibs = blocksFailed syms F' km ibs := by
+  intro ibs
+  induction ibs with
+  | nil => intro _ _; rfl
+  | cons ib rest ih =>
+    intro ha hn
+    obtain ⟨i, b⟩ := ib
+    simp only [blocksFailed]
+    rw [failedChecks_vis hv syms km _ i _ b.checks 0 (ha (i, b) List.mem_cons_self) (hn (i, b) List.mem_cons_self),
+        ih (fun x hx => ha x (List.mem_cons_of_mem _ hx)) (fun x hx => hn x (List.mem_cons_of_mem _ hx))]
+
+/-! ### the structure of the extended token -/
+
+theorem enumFrom_append {α : Type} (xs : List α) (y : α) : ∀ i, enumFrom i (xs ++ [y]) = enumFrom i xs ++ [(i + xs.length, y)] := by
+  induction xs with
+  | nil => intro i; simp [enumFrom]
+  | cons x xs ih =>
+    intro i
+    have : i + 1 + xs.length = i + (xs.length + 1) := by omega
+    simp only [List.cons_append, enumFrom, ih, List.length_cons, this]
+
+theorem mem_enumFrom_lt {α : Type} (xs : List α) : ∀ i (ib : Nat × α), ib ∈ enumFrom i xs → i ≤ ib.1 ∧ ib.1 < i + xs.length := by
+  induction xs with
+  | nil => intro i ib h; simp [enumFrom] at h
+  | cons x xs ih =>
+    intro i ib h
+    simp only [enumFrom, List.mem_cons] at h
+    rcases h with rfl | h
+    · simp
+    · have := ih (i + 1) ib h
+      simp only [List.length_cons]; omega
+
+theorem keyMapFrom_append_none (blocks : List Block) (b : Block) (hb : b.extKey = none) :
+    ∀ i m, keyMapFrom (blocks ++ [b]) i m = keyMapFrom blocks i m := by
+  induction blocks with
+  | nil => intro i m; simp [keyMapFrom, hb]
+  | cons x xs ih => intro i m; simp only [List.cons_append, keyMapFrom]; cases x.extKey <;> simp [ih]
+
+theorem keyMap_append_none (blocks : List Block) (b : Block) (hb : b.extKey = none) :
+    keyMap (blocks ++ [b]) = keyMap blocks := keyMapFrom_append_none blocks b hb 0 []
+
+theorem blocksFailed_append (syms : SymbolTable) (F : List OFact) (km : KeyMap) (xs ys : List (Nat × Block))
+    (h : blocksFailed syms F km (xs ++ ys) = .ok []) : blocksFailed syms F km xs = .ok [] := by
+  induction xs with
+  | nil => rfl
+  | cons ib rest ih =>
+    obtain ⟨i, b⟩ := ib
+    simp only [List.cons_append, blocksFailed] at h ⊢
+    cases h1 : failedChecks syms F km (trustedFromScopes b.scopes defaultTrusted i km) i (FailedCheck.block i) 0 b.checks with
+    | error e => rw [h1] at h; cases h
+    | ok l =>
+      rw [h1] at h
+      simp only at h ⊢
+      cases h2 : blocksFailed syms F km (rest ++ ys) with
+      | error e => rw [h2] at h; cases h
+      | ok l' =>
+        rw [h2] at h
+        simp only [Except.ok.injEq, List.append_eq_nil_iff] at h
+        rw [ih (by rw [h2, h.2])]
+        simp [h.1]
+
+/-- the scopes of everything that existed before block `n` was appended leave `n` out -/
+theorem old_trusted_avoid (blocks : List Block) (n : Nat) (hn : n = blocks.length) (hn0 : n ≠ 0) (hnA : n < authorizerId)
+    (scopes : List Scope) (dflt : List Nat) (cur : Nat) (hcur : cur < n ∨ cur = authorizerId) (hd : n ∉ dflt) :
+    n ∉ trustedFromScopes scopes dflt cur (keyMap blocks) :=
+  old_scopes_exclude_new scopes dflt cur n (keyMap blocks) hcur hn0 (by omega) hd
+    (fun k _ hm => by
+      obtain ⟨hlt, _, _⟩ := (C07.keyMap_spec blocks k n).mp hm
+      omega)
+
+/-- the Datalog program the authorizer runs for a token and an authorizer -/
+def worldProgram (syms : SymbolTable) (blocks : List Block) (az : AuthorizerData) : Program :=
+  ⟨syms, worldFacts blocks az, worldRules blocks az⟩
+
+theorem authorize_eq (syms : SymbolTable) (blocks : List Block) (az : AuthorizerData) (lim : Limits) :
+    authorize syms blocks az lim =
+      match (runProgram (worldProgram syms blocks az) lim).result with
+      | .error e => .runError e
+      | .ok () => decide syms (runProgram (worldProgram syms blocks az) lim).facts blocks az := rfl
+
+theorem mem_worldFacts_append (blocks : List Block) (b : Block) (az : AuthorizerData) (x : OFact) :
+    x ∈ worldFacts (blocks ++ [b]) az ↔ x ∈ worldFacts blocks az ∨ x ∈ b.facts.map (fun f => ([blocks.length], f)) := by
+  simp only [worldFacts, enumFrom_append, List.flatMap_append, List.mem_append, List.flatMap_cons, List.flatMap_nil,
+    List.append_nil, blockFacts, Nat.zero_add]
+  constructor
+  · rintro ((h | h) | h)
+    · exact .inl (.inl h)
+    · exact .inr h
+    · exact .inl (.inr h)
+  · rintro ((h | h) | h)
+    · exact .inl (.inl h)
+    · exact .inr h
+    · exact .inl (.inr h)
+
+theorem mem_worldRules_append (blocks : List Block) (b : Block) (az : AuthorizerData) (hb : b.extKey = none) (r : SRule) :
+    r ∈ worldRules (blocks ++ [b]) az ↔ r ∈ worldRules blocks az ∨ r ∈ blockRules (keyMap blocks) blocks.length b := by
+  simp only [worldRules, keyMap_append_none blocks b hb, enumFrom_append, List.flatMap_append, List.mem_append,
+    List.flatMap_cons, List.flatMap_nil, List.append_nil, Nat.zero_add]
+  constructor
+  · rintro ((h | h) | h)
+    · exact .inl (.inl h)
+    · exact .inr h
+    · exact .inl (.inr h)
+  · rintro ((h | h) | h)
+    · exact .inl (.inl h)
+    · exact .inr h
+    · exact .inl (.inr h)
+
+/-- no rule of the original world trusts the block that is about to be appended -/
+theorem old_rules_avoid (blocks : List Block) (az : AuthorizerData) (hn0 : blocks.length ≠ 0)
+    (hnA : blocks.length < authorizerId) :
+    ∀ sr ∈ worldRules blocks az, blocks.length ∉ sr.trusted := by
+  intro sr hsr
+  have hdef : blocks.length ∉ defaultTrusted := default_excludes_new _ hn0 (by omega)
+  simp only [worldRules, List.mem_append, List.mem_flatMap, List.mem_map, blockRules] at hsr
+  rcases hsr with ⟨ib, hib, q, _, rfl⟩ | ⟨q, _, rfl⟩
+  · have hlt := (mem_enumFrom_lt blocks 0 ib hib).2
+    have hcur : ib.1 < blocks.length ∨ ib.1 = authorizerId := .inl (by omega)
+    exact old_trusted_avoid blocks _ rfl hn0 hnA _ _ _ hcur
+      (old_trusted_avoid blocks _ rfl hn0 hnA _ _ _ hcur hdef)
+  · exact old_trusted_avoid blocks _ rfl hn0 hnA _ _ _ (.inr rfl)
+      (old_trusted_avoid blocks _ rfl hn0 hnA _ _ _ (.inr rfl) hdef)
+
+/-- **What the original world shows to anyone who does not trust the new block is what the
+    extended world shows them.** -/
+theorem worlds_vis_same (syms : SymbolTable) (blocks : List Block) (b : Block) (az : AuthorizerData)
+    (lim lim' : Limits) (hn0 : blocks.length ≠ 0) (hnA : blocks.length < authorizerId) (hext : b.extKey = none)
+    (hrune : (runProgram (worldProgram syms (blocks ++ [b]) az) lim).result = .ok ())
+    (hruno : (runProgram (worldProgram syms blocks az) lim').result = .ok ()) :
+    VisSame blocks.length (runProgram (worldProgram syms (blocks ++ [b]) az) lim).facts
+      (runProgram (worldProgram syms blocks az) lim').facts := by
+  intro T hT x
+  simp only [C04.visible_spec, run_exact _ _ hrune, run_exact _ _ hruno]
+  have hbridge : ∀ y, Derives (worldProgram syms (blocks ++ [b]) az) y ↔
+      Derives (extend (worldProgram syms blocks az) blocks.length b.facts (blockRules (keyMap blocks) blocks.length b)) y := by
+    intro y
+    constructor
+    · exact derives_congr (worldProgram syms (blocks ++ [b]) az)
+        (extend (worldProgram syms blocks az) blocks.length b.facts (blockRules (keyMap blocks) blocks.length b)) rfl
+        (fun z hz => by
+          show z ∈ worldFacts blocks az ++ b.facts.map (fun f => ([blocks.length], f))
+          rw [List.mem_append]
+          exact (mem_worldFacts_append blocks b az z).mp hz)
+        (fun r hr => by
+          show r ∈ worldRules blocks az ++ blockRules (keyMap blocks) blocks.length b
+          rw [List.mem_append]
+          exact (mem_worldRules_append blocks b az hext r).mp hr) y
+    · exact derives_congr
+        (extend (worldProgram syms blocks az) blocks.length b.facts (blockRules (keyMap blocks) blocks.length b))
+        (worldProgram syms (blocks ++ [b]) az) rfl
+        (fun z hz => by
+          have hz' : z ∈ worldFacts blocks az ++ b.facts.map (fun f => ([blocks.length], f)) := hz
+          rw [List.mem_append] at hz'
+          exact (mem_worldFacts_append blocks b az z).mpr hz')
+        (fun r hr => by
+          have hr' : r ∈ worldRules blocks az ++ blockRules (keyMap blocks) blocks.length b := hr
+          rw [List.mem_append] at hr'
+          exact (mem_worldRules_append blocks b az hext r).mpr hr') y
+  constructor
+  · rintro ⟨hd, hsub⟩
+    refine ⟨?_, hsub⟩
+    exact derives_restrict (worldProgram syms blocks az) blocks.length b.facts _
+      (fun sr hsr => by
+        simp only [blockRules, List.mem_map] at hsr
+        obtain ⟨q, _, rfl⟩ := hsr
+        rfl)
+      (old_rules_avoid blocks az hn0 hnA) x ((hbridge x).mp hd) (fun hm => hT (hsub _ hm))
+  · rintro ⟨hd, hsub⟩
+    exact ⟨(hbridge x).mpr (derives_mono _ _ _ _ x hd), hsub⟩
+
+/-- **C03, end to end, for error-free evaluations.** If the token extended by a first-party block
+    `b` is authorized by policy `i`, then — provided the original token's run stays within its
+    limits and no expression fails while the checks and policies of the extended token are
+    evaluated — the original token is authorized by the same policy `i`: the appended block's
+    facts and rules are invisible to every earlier block and to the authorizer, and its checks
+    can only refuse.  (`_partial`: third-party blocks, which *are* visible to the scopes naming
+    their key, and evaluations with expression errors, whose outcome depends on iteration order
+    — C11 — are outside this statement.) -/
+theorem attenuation_monotone_partial (syms : SymbolTable) (blocks : List Block) (b : Block) (az : AuthorizerData)
+    (lim lim' : Limits) (i : Nat)
+    (hne : blocks ≠ []) (hnA : blocks.length < authorizerId) (hext : b.extKey = none)
+    (hruno : (runProgram (worldProgram syms blocks az) lim').result = .ok ())
+    (hnoerr : AllNoErr syms (runProgram (worldProgram syms (blocks ++ [b]) az) lim).facts (blocks ++ [b]) az)
+    (h : authorize syms (blocks ++ [b]) az lim = .ok i) :
+    authorize syms blocks az lim' = .ok i := by
+  have hn0 : blocks.length ≠ 0 := fun h0 => hne (List.length_eq_zero_iff.mp h0)
+  have hkm := keyMap_append_none blocks b hext
+  rw [authorize_eq] at h
+  cases hrune : (runProgram (worldProgram syms (blocks ++ [b]) az) lim).result with
+  | error e => rw [hrune] at h; cases h
+  | ok u =>
+    cases u
+    rw [hrune] at h
+    simp only at h
+    have hv := worlds_vis_same syms blocks b az lim lim' hn0 hnA hext hrune hruno
+    obtain ⟨f1, f2, f3, h1, h2, hp, h3, hnil⟩ := (decide_ok_iff _ _ _ _ _).mp h
+    rw [hkm] at h1 h2 hp h3
+    have hdef : blocks.length ∉ defaultTrusted := default_excludes_new _ hn0 (by omega)
+    have hazT : blocks.length ∉ authorizerTrusted az (keyMap blocks) :=
+      old_trusted_avoid blocks _ rfl hn0 hnA _ _ _ (.inr rfl) hdef
+    have hf1 : f1 = [] := by simp only [List.append_eq_nil_iff] at hnil; exact hnil.1.1
+    have hf2 : f2 = [] := by simp only [List.append_eq_nil_iff] at hnil; exact hnil.1.2
+    have hf3 : f3 = [] := by simp only [List.append_eq_nil_iff] at hnil; exact hnil.2
+    subst hf1 hf2 hf3
+    -- the elements of the original token inside the extended one
+    have henum : enumFrom 0 (blocks ++ [b]) = enumFrom 0 blocks ++ [(blocks.length, b)] := by
+      rw [enumFrom_append]; simp
+    have hpos : 1 ≤ (enumFrom 0 blocks).length := by
+      cases blocks with
+      | nil => exact absurd rfl hne
+      | cons x xs => simp [enumFrom]
+    have htake : (enumFrom 0 (blocks ++ [b])).take 1 = (enumFrom 0 blocks).take 1 := by
+      rw [henum, List.take_append_of_le_length hpos]
+    have hdrop : (enumFrom 0 (blocks ++ [b])).drop 1 = (enumFrom 0 blocks).drop 1 ++ [(blocks.length, b)] := by
+      rw [henum, List.drop_append_of_le_length hpos]
+    rw [htake] at h2
+    rw [hdrop] at h3
+    have h3' := blocksFailed_append syms _ (keyMap blocks) _ _ h3
+    have hblockAvoid : ∀ ib ∈ enumFrom 0 blocks, ∀ c ∈ ib.2.checks,
+        ScopesAvoid blocks.length (keyMap blocks) (trustedFromScopes ib.2.scopes defaultTrusted ib.1 (keyMap blocks)) ib.1 c.queries := by
+      intro ib hib c _ q _
+      have hlt := (mem_enumFrom_lt blocks 0 ib hib).2
+      have hcur : ib.1 < blocks.length ∨ ib.1 = authorizerId := .inl (by omega)
+      exact old_trusted_avoid blocks _ rfl hn0 hnA _ _ _ hcur (old_trusted_avoid blocks _ rfl hn0 hnA _ _ _ hcur hdef)
+    have hblockNoErr : ∀ ib ∈ enumFrom 0 blocks, ∀ c ∈ ib.2.checks,
+        CheckNoErr syms (runProgram (worldProgram syms (blocks ++ [b]) az) lim).facts (keyMap blocks)
+          (trustedFromScopes ib.2.scopes defaultTrusted ib.1 (keyMap blocks)) ib.1 c.queries := by
+      intro ib hib c hc
+      have := hnoerr.blockChecks ib (by rw [henum]; exact List.mem_append_left _ hib) c hc
+      rwa [hkm] at this
+    rw [authorize_eq, hruno]
+    simp only
+    apply (decide_ok_iff _ _ _ _ _).mpr
+    refine ⟨[], [], [], ?_, ?_, ?_, ?_, rfl⟩
+    · rw [← failedChecks_vis hv syms _ _ _ _ az.checks 0
+        (fun c _ q _ => old_trusted_avoid blocks _ rfl hn0 hnA _ _ _ (.inr rfl) hazT)
+        (fun c hc => by have := hnoerr.azChecks c hc; rwa [hkm] at this)]
+      exact h1
+    · rw [← blocksFailed_vis hv syms _ _
+        (fun ib hib => hblockAvoid ib (List.mem_of_mem_take hib))
+        (fun ib hib => hblockNoErr ib (List.mem_of_mem_take hib))]
+      exact h2
+    · rw [← firstPolicy_vis hv syms _ _ az.policies 0
+        (fun p _ q _ => old_trusted_avoid blocks _ rfl hn0 hnA _ _ _ (.inr rfl) hazT)
+        (fun p hp' => by have := hnoerr.policies p hp'; rwa [hkm] at this)]
+      exact hp
+    · rw [← blocksFailed_vis hv syms _ _
+        (fun ib hib => hblockAvoid ib (List.mem_of_mem_drop hib))
+        (fun ib hib => hblockNoErr ib (List.mem_of_mem_drop hib))]
+      exact h3'
+
+/-! non-vacuity: an authority block, an appended block with a fact and a check, an allow policy -/
+section Example
+def exA : Block := { facts := [⟨1024, [.int 1]⟩], rules := [], checks := [], scopes := [], extKey := none }
+def exB : Block :=
+  { facts := [⟨1024, [.int 2]⟩], rules := [], checks := [⟨.one, [⟨⟨⟨1025, []⟩, [⟨1024, [.var 0]⟩], []⟩, []⟩]⟩],
+    scopes := [], extKey := none }
+def exZ : AuthorizerData :=
+  { facts := [], rules := [], checks := [], policies := [⟨.allow, [⟨⟨⟨1025, []⟩, [⟨1024, [.int 1]⟩], []⟩, []⟩]⟩], scopes := [] }
+
+example : authorize ⟨[]⟩ ([exA] ++ [exB]) exZ ⟨1000, 100, none⟩ = .ok 0
+    ∧ authorize ⟨[]⟩ [exA] exZ ⟨1000, 100, none⟩ = .ok 0 := by decide
+end Example
 
 end Biscuit.C03
